@@ -4,7 +4,9 @@
      controller with the recording scheduler, sync committee messenger + aggregator, block relay);
      after every operation the harness reads the sizes of the bookkeeping maps, the slots whose
      attestation job is executing, and, for a window of slots, HasPendingAttestations and
-     scheduler.JobExists.
+     scheduler.JobExists; and the SLOTS for which builder bids are cached (printed after every
+     request for a bid, proposal path or builder API, and whenever they changed).  The slots of
+     the bid requests are in no particular order: the builder API serves whatever slot it is asked for.
    - Fan: one call of a `first` strategy or of unblindProposal with n scripted providers released
      one at a time; afterwards the harness counts the goroutines of that function that are blocked
      on a channel send.
@@ -14,7 +16,7 @@
      at quiescence: has the (current) call returned, and how many requests are outstanding at
      providers that honour their context (over all calls so far); at the end: goroutines of the
      function blocked on a send, and goroutines of the function (or started by it) that still exist. *)
-From Verif Require Export Lib.Base Model.C20_Bookkeeping Model.C20_Fanout Model.C20_Jobs Model.C20_Requests.
+From Verif Require Export Lib.Base Model.C20_Bookkeeping Model.C20_Fanout Model.C20_Jobs Model.C20_Requests Model.C20_BidApi.
 
 Record probe := { p_slot : N; p_has : bool; p_job : bool }.
 
@@ -22,11 +24,12 @@ Record row := {
   r_sizes : list N;      (* attested, pendingAttestations, attestation jobs in the scheduler, executing jobs,
                             subscriptionInfos, beaconBlockRoots, slotDataRecords, builderBidsCache *)
   r_running : list N;    (* slots whose job function is executing, ascending *)
-  r_probes : list probe
+  r_probes : list probe;
+  r_bids : option (list N)   (* keys of builderBidsCache, ascending; None = as in the previous row *)
 }.
 
 Inductive body :=
-| Soak (spe : N) (ops : list op) (rows : list row)
+| Soak (spe : N) (ops : list xop) (rows : list row)
 | Fan (kind : N) (n : nat) (timeout : bool)
       (detect : bool)    (* the collector is told when every provider has failed (unblindProposal) *)
       (evs : list fev)
@@ -58,17 +61,21 @@ Definition nlist_eqb := list_eqb N.eqb.
 Definition probe_agrees (st : sys) (p : probe) : bool :=
   Bool.eqb (p_has p) (has_pending st (p_slot p)) && Bool.eqb (p_job p) (mem (p_slot p) (jobs st)).
 
-Definition row_agrees (spe : N) (st : sys) (r : row) : bool :=
+Definition row_agrees (spe : N) (st_prev st : sys) (r : row) : bool :=
   nlist_eqb (sizes st) (r_sizes r) &&
   nlist_eqb (sort_by (fun x => x) (running st)) (r_running r) &&
-  forallb (probe_agrees st) (r_probes r).
+  forallb (probe_agrees st) (r_probes r) &&
+  match r_bids r with
+  | Some ks => nlist_eqb (sort_by (fun x => x) (bids st)) ks
+  | None => nlist_eqb (bids st) (bids st_prev)
+  end.
 
-Fixpoint soak_agrees (spe : N) (st : sys) (ops : list op) (rows : list row) : bool :=
+Fixpoint soak_agrees (spe : N) (st : sys) (ops : list xop) (rows : list row) : bool :=
   match ops, rows with
   | [], [] => true
   | o :: ops', r :: rows' =>
-      let st' := step spe true st o in
-      row_agrees spe st' r && soak_agrees spe st' ops' rows'
+      let st' := xstep spe true st o in
+      row_agrees spe st st' r && soak_agrees spe st' ops' rows'
   | _, _ => false
   end.
 
@@ -155,7 +162,7 @@ Definition input_ok (spe : N) (t : track) (prev_running : list N) (o : op) : boo
   | OHead cur _ => t_now t <=? cur
   | OMessage s _ => t_msg t <=? s
   | OAggregate _ => true
-  | OAuction s => t_auc t <=? s
+  | OAuction _ => true   (* the cache of builder bids is bounded whatever the order of the slots: bids_ok *)
   end.
 
 Definition track_step (spe : N) (t : track) (prev_running new_running : list N) (o : op) : track :=
@@ -190,7 +197,7 @@ Definition row_ok (spe : N) (t : track) (r : row) : bool :=
       (* memory: every map inside its window *)
       (n_att <=? t_hi t - t_succ t + 2) &&
       (n_subs <=? ep spe (t_now t) - t_head t + 3) &&
-      (n_roots <=? spe + 1) && (n_sdata <=? max_slot_data) && (n_bids <=? bid_window + 1) &&
+      (n_roots <=? spe + 1) && (n_sdata <=? max_slot_data) &&
       (* one pending mark per attestation job that is set up and not finished or withdrawn *)
       (n_run =? size (r_running r)) && (n_marks =? n_jobs + n_run) &&
       (* HasPendingAttestations(s) <-> the job of s exists or is executing *)
@@ -198,14 +205,47 @@ Definition row_ok (spe : N) (t : track) (r : row) : bool :=
   | _ => false
   end.
 
-Fixpoint soak_ok (spe : N) (t : track) (prev_running : list N) (ops : list op) (rows : list row) : bool :=
+Fixpoint ascending (l : list N) : bool :=
+  match l with
+  | x :: ((y :: _) as l') => (x <? y) && ascending l'
+  | _ => true
+  end.
+
+(* --- the cache of builder bids: NO condition on the requests (C20_bids_api_any_order) ----------
+   The slot for which cacheBid ran, judged from the request and the observed keys before / after:
+   a proposal-path auction always caches; a builder API request caches unless it was answered
+   from the cache. *)
+Definition cached_for (prev ks : list N) (x : xop) : option N :=
+  match x with
+  | XBase (OAuction s) => if mem s ks then Some s else None
+  | XBid s => if mem s prev then None else if mem s ks then Some s else None
+  | _ => None
+  end.
+
+(* [last]: slot of the latest cacheBid (this row's included).  Nothing older than the window before
+   it is held, every held slot was held before or is the one just asked for, no slot twice (hence
+   at most bid_window + 1 slots up to [last]; beyond it only slots that were asked for). *)
+Definition bids_ok (last : N) (prev ks : list N) (x : xop) (n_bids : N) : bool :=
+  (n_bids =? size ks) && ascending ks &&
+  forallb (fun k => (last <=? k + bid_window) &&
+                    (mem k prev || match xreq x with Some s => k =? s | None => false end)) ks.
+
+Definition n_bids_of (r : row) : N := nth 7 (r_sizes r) 0.
+
+Fixpoint soak_ok (spe : N) (t : track) (prev_running : list N) (claims : bool) (last : N) (prev_bids : list N)
+         (ops : list xop) (rows : list row) : bool :=
   match ops, rows with
   | [], [] => true
-  | o :: ops', r :: rows' =>
-      if input_ok spe t prev_running o then
-        let t' := track_step spe t prev_running (r_running r) o in
-        row_ok spe t' r && soak_ok spe t' (r_running r) ops' rows'
-      else true    (* outside the conditions of the theorems: nothing is claimed from here on *)
+  | x :: ops', r :: rows' =>
+      let ks := match r_bids r with Some ks => ks | None => prev_bids end in
+      let last' := match cached_for prev_bids ks x with Some s => s | None => last end in
+      let o := match x with XBase o => o | XBid _ => OAggregate 0 (* changes nothing the guards speak about *) end in
+      (* outside the conditions of the other theorems nothing more is claimed about the other maps *)
+      let claims' := claims && input_ok spe t prev_running o in
+      let t' := track_step spe t prev_running (r_running r) o in
+      bids_ok last' prev_bids ks x (n_bids_of r) &&
+      (if claims' then row_ok spe t' r else true) &&
+      soak_ok spe t' (r_running r) claims' last' ks ops' rows'
   | _, _ => false
   end.
 
@@ -216,12 +256,6 @@ Fixpoint fire_of (fires : list (N * N)) (id : N) : option N :=
   match fires with
   | [] => None
   | (i, t) :: fires' => if i =? id then Some t else fire_of fires' id
-  end.
-
-Fixpoint ascending (l : list N) : bool :=
-  match l with
-  | x :: ((y :: _) as l') => (x <? y) && ascending l'
-  | _ => true
   end.
 
 Fixpoint jobs_ok (now : N) (fires : list (N * N)) (prev_tab : list N) (ops : list jop)
@@ -273,7 +307,7 @@ Definition req_ok (kind : N) (n : nat) (hon : list bool) (calls : nat) (end_call
 
 Definition P_b (c : case) : bool :=
   match c_body c with
-  | Soak spe ops rows => (0 <? spe) && soak_ok spe track0 [] ops rows
+  | Soak spe ops rows => (0 <? spe) && soak_ok spe track0 [] true 0 [] ops rows
   | Fan _ _ _ _ _ returned _ nblocked => returned && (nblocked =? 0)
   | Jobs jops jrows => jobs_ok 0 [] [] jops jrows
   | Req kind n hon calls end_caller evs rows returned _ nblocked nalive =>
